@@ -34,6 +34,7 @@ use super::*;
 //@include prelude/iter_ext.rs
 //@include prelude/cycles_std.rs
 //@include prelude/cycles_spec.rs
+//@include prelude/cycles_roots.rs
 } // mod pre
 use pre::*;
 
@@ -109,6 +110,7 @@ impl FixtureDatabase {
 @rename join vp_join
 @rename to_vec vp_to_vec
 @nocontinue 2
+@wrapexpr 1 `dep_graph.keys().collect()` => `Self::vp_root_keys(&dep_graph)` with fn vp_root_keys<'a>(dep_graph: &'a HashMap<String, Vec<String>>) -> (r: Vec<&'a String>) ensures enumerates(strs_r(r@), dep_graph.m().dom())
 @closure filter:1 |d: &&String| -> (b: bool) ensures b == self.definitions.m().contains_key(d@)
 @closure position:last |f: &String| -> (b: bool) ensures b == (f@ == dep@)
 @derefcmp f dep
@@ -152,6 +154,10 @@ impl FixtureDatabase {
     }
 @before visited 1
     let ghost g = dg_view(dep_graph.m());
+@after roots 1
+    let ghost keys0 = strs_r(roots@);
+@after roots 2
+    proof { assert(strs_r(roots@) == roots_of(dep_graph.m().dom(), keys0)); }
 @loopvar 2 it2
 @loop 2
     invariant
@@ -335,10 +341,31 @@ pub proof fn canary_C16_stale_path_accepted(defs: Map<Seq<char>, Seq<DefV>>, cs:
 {
     reveal(cycles_ok); reveal(is_chain);
 }
+/// C16 / C08 ("which cycles are reported, and on which fixture, does not vary between runs"), after the repair of
+/// F-16c: the DFS roots are `sorted_names` of the adjacency table's key set — whatever enumeration `HashMap::keys()`
+/// produced (two runs = two enumerations of the same key set).  The body of compute_fixture_cycles asserts that its
+/// `roots` ARE roots_of(key set, enumeration) (obligation `@after roots 2`).  Not proved: that the rest of the DFS is a
+/// function of (graph, roots) — it is sequential code over Vec / HashMap::get / HashSet::contains with no other iteration
+/// over a hash container (by reading); the replay scenario F-16c (24 fresh databases) observes one report.
+//@tags C16 C08
+pub proof fn lemma_C16_roots_independent_of_hash_order(e1: Seq<Seq<char>>, e2: Seq<Seq<char>>, dom: Set<Seq<char>>)
+    requires enumerates(e1, dom), enumerates(e2, dom),
+    ensures roots_of(dom, e1) == roots_of(dom, e2), roots_of(dom, e1).to_multiset() == e1.to_multiset(),
+{
+    lemma_enumerations_same_multiset(e1, e2, dom);
+    axiom_sorted_names_perm(e1.to_multiset());
+}
+/// vacuity guard: roots of DIFFERENT key sets are not claimed equal
+pub proof fn canary_C16_roots_of_any_two_tables_equal(e1: Seq<Seq<char>>, e2: Seq<Seq<char>>, d1: Set<Seq<char>>, d2: Set<Seq<char>>)
+    requires enumerates(e1, d1), enumerates(e2, d2),
+    ensures roots_of(d1, e1) == roots_of(d2, e2),
+{
+}
 /// KNOWN INCOMPLETENESS (not claimed): the contract does not say that every closed chain of G is reported.  The code
 /// does not do it either: (1) a dependency that is already `visited` is never re-entered (`else if !visited.contains(dep)`),
 /// so with a -> b -> a and a -> c -> b only [a, b, a] is reported when the DFS starts at a (the chain a, c, b, a is not),
-/// while a start at c reports both — which cycles are reported depends on the hash order of `dep_graph.keys()`;
+/// while a start at c reports both — which cycles are reported depends on the order of the DFS roots (since the
+/// repair of F-16c: the name order, lemma_C16_roots_independent_of_hash_order; before it: the hash order of `dep_graph.keys()`);
 /// (2) cycles over the same names share the key; (3) G uses `first()` only (F-16b).
 pub proof fn canary_C16_every_cycle_reported(defs: Map<Seq<char>, Seq<DefV>>, cs: Seq<FixtureCycle>, seen: Set<Seq<char>>, p: Seq<Seq<char>>)
     requires cycles_ok(defs, cs), keys_ok(cs, seen), is_closed_chain(defs, p),
